@@ -238,7 +238,21 @@ pub async fn run_conn(
                         }
                     }
                 }
-                match wend.write_all(&data.0).await {
+                // (as in client_tls.rs: a write still blocked a second after
+                // the peer has ended the response stream is abandoned)
+                let wrote = {
+                    let write = wend.write_all(&data.0);
+                    tokio::pin!(write);
+                    loop {
+                        let eof = shared.lock().unwrap().done_reading;
+                        tokio::select! {
+                            r = &mut write => break r,
+                            _ = notify.notified(), if !eof => {}
+                            _ = tokio::time::sleep(ms(1_000)), if eof => break Err(std::io::Error::from(std::io::ErrorKind::BrokenPipe)),
+                        }
+                    }
+                };
+                match wrote {
                     Ok(()) => {
                         if let Some(i) = completes {
                             let nonce = plan.reqs[*i].nonce;
